@@ -52,19 +52,19 @@ theorem C14_drive_is_repeated_poll_ready (r : R) (env : List Ans) :
     simp only [he]
     rw [driveLoop_repolls r env hn]
     by_cases hp : (loop r env).2.2 = .pending ∧ (loop r env).2.1 ≠ []
-    · have hcons := loop_consumes r env hn
-      obtain ⟨_, _, h2, _⟩ := hcons
-      have : (loop r env).1.error = none := by
-        -- a poll that returned Pending stored no error
-        have hg := loop_ready_callable r env
-        cases hle : (loop r env).1.error with
-        | none => rfl
-        | some e =>
-          exfalso
-          have := loop_pending_error r env hn hp.1
-          simp [this] at hle
+    · -- a poll that returned Pending stored no error
+      have : (loop r env).1.error = none := loop_pending_error r env hn hp.1
       simp [hp, this]
     · simp [hp]
+
+/-- Results do not depend on the readiness pattern: removing every `Pending` answer from the
+script (`strip`) changes neither the result of any call of a session of any length nor the final
+state — `Pending` only delays. (This is what lets the end-to-end model ignore connector and
+handshake latency.) -/
+theorem C14_pending_irrelevant (r : R) (env : List Ans) (n : Nat) :
+    (session r (strip env) n).1 = (session r env n).1 ∧
+    (session r (strip env) n).2.1 = (session r env n).2.1 :=
+  session_strip r env n
 
 /-! ## every call gets a definite result -/
 
